@@ -104,10 +104,15 @@ def key_of(obj):
     )
 
 
-def apply_vs_op(obj, op):
-    """Apply op to the real object; returns (new object, problems)."""
+def apply_vs_op(obj, op, retired=None):
+    """Apply op to the real object; returns (new object, problems).
+
+    `retired` collects (object, key) of every operand of a union: a union must return a set that is
+    independent of its operands, so later in-place additions to the result must not change them."""
     kind = op[0]
     problems = []
+    if retired is None:
+        retired = []
     if kind == "add_value":
         obj.add_value(op[1])
         return obj, problems
@@ -120,12 +125,15 @@ def apply_vs_op(obj, op):
         new = (obj + other) if kind == "union_r" else (other + obj)
         if key_of(obj) != ka or key_of(other) != kb:
             problems.append("%r modified an operand" % (op,))
+        retired.append((obj, ka, "left operand of %r" % (op,) if kind == "union_r" else "right operand of %r" % (op,)))
+        retired.append((other, kb, "the other operand of %r" % (op,)))
         return new, problems
     if kind == "union_self":
         ka = key_of(obj)
         new = obj + obj
         if key_of(obj) != ka:
             problems.append("%r modified its operand" % (op,))
+        retired.append((obj, ka, "operand of %r" % (op,)))
         return new, problems
     raise ValueError(op)
 
@@ -186,9 +194,14 @@ def run_vs_history(hist, check_all=True):
         problems = ["step 0 %r: %s" % (first, p) for p in check_vs(obj, m)]
         if problems:
             return problems, ("bad",), m
+    retired = []
     for step, op in enumerate(hist[1:], 1):
-        obj, pr = apply_vs_op(obj, op)
+        obj, pr = apply_vs_op(obj, op, retired)
         m = model_vs_op(m, op)
+        for old, key, what in retired:
+            if key_of(old) != key:
+                pr = pr + ["%s was changed by a later operation on the result (aliasing): %r -> %r" % (what, key, key_of(old))]
+                break
         if check_all or step == last:
             pr = pr + check_vs(obj, m)
         if pr:
